@@ -5,7 +5,7 @@
     statement renders the property, and how the model is tied to /repo, is in DESIGN.md. *)
 From CB Require Import ProofLib Spec MonitorSound Results.
 From CB Require Import Inv_combine Inv_share.
-From CB Require Import Chain Programs.
+From CB Require Import Chain Programs Tree TreePrograms.
 
 Theorem C02_map (f : val -> val) p (c : cfg (map_op f)) :
   std p -> reach p g_std c -> forall s, term_final s (trace c).
@@ -80,3 +80,16 @@ Theorem C02_pipeline it stages b N :
   forall i n, nth_error (nodes N) i = Some n -> forall s, term_final s (ntrace n).
 Proof. exact (fun Hok Hr i n Hn => pk_c02 (proj1 (@pipeline_protocol it stages b N Hok Hr i n Hn))). Qed.
 Print Assumptions C02_pipeline.
+
+(** ** programs: every component of every TREE of from_iter / interval leaves and map / filter / scan /
+    take / skip / merge! / concat! nodes (for_each at roots), wired child to parent port, in every
+    reachable state, whatever the external peers do (composition theorem for trees, Tree.v/TreePrograms.v;
+    combine! is excluded: its broadcast to ended members, KF2, breaks its children's assumptions) *)
+Theorem C02_program (ts : list tnode) (es : list edge) (N : tnet) :
+  Forall tnode_ok ts -> edges_okb es (length ts) = true ->
+  (forall e, In e es -> nth_error ts (e_child e) <> Some TSink) ->
+  tnet_reach (wiring_of es) (prog_net ts) N ->
+  forall i n, nth_error (tnodes N) i = Some n ->
+  forall s, term_final s (ntrace n).
+Proof. exact (fun Hok He Hs Hr i n Hn => pk_c02 (proj1 (@program_protocol ts es N Hok He Hs Hr i n Hn))). Qed.
+Print Assumptions C02_program.
